@@ -16,12 +16,14 @@ inductive Outcome
   | adaptedTruncated  -- adapted head, then a body that is visibly cut short
   | retry             -- the Launcher starts another attempt (persistent connection race)
   | pending           -- the transaction is still running
+  | crash             -- the proxy process died
   deriving DecidableEq, Repr
 
 /-- Iterator::handleAdaptationError(): `useVirgin = canIgnore && !adapted && srcIntact` (single service, no replacement) -/
 def useVirgin (s : St) : Bool := s.cfg.bypass && (!s.cfg.hasBody || s.consumed == 0)
 
 def outcome (s : St) : Outcome :=
+  if s.crashed then .crash else
   match s.answer with
   | .forward =>
     (match s.head, s.outSt with
@@ -42,6 +44,6 @@ def outcome (s : St) : Outcome :=
 
 def Outcome.name : Outcome → String
   | .virgin => "V" | .adapted => "A" | .error => "E" | .virginTruncated => "VT" | .adaptedTruncated => "AT"
-  | .retry => "RETRY" | .pending => "PENDING"
+  | .retry => "RETRY" | .pending => "PENDING" | .crash => "CRASH"
 
 end SquidModel.Icap
